@@ -50,7 +50,8 @@ def filter_kwargs_conformance():
         for r in range(len(keys) + 1):
             for sub in itertools.combinations(keys, r):
                 # truthy values, and values that are false in a boolean context (an explicit False / 0 / None is still passed on)
-                for K in ({k: 10 + i for i, k in enumerate(sub)}, {k: [False, 0, None, 0.0][i % 4] for i, k in enumerate(sub)}):
+                falsy = [False, 0, None, 0.0]
+                for K in [{k: 10 + i for i, k in enumerate(sub)}] + [{k: falsy[(i + rot) % 4] for i, k in enumerate(sub)} for rot in range(4)]:
                     want = f(1, 2, **(K if has_kw else {k: v for k, v in K.items() if k in names}))
                     try:
                         got = util.filter_kwargs(f, 1, 2, **K)
@@ -66,7 +67,7 @@ def run(tier, seed, results, tasks=None, prop='C03'):
     out = []
     t0 = time.time()
     n, failures = filter_kwargs_conformance()
-    out.append(dict(name='util.filter_kwargs / has_kwargs conform to the contract E4 assumes', bound='7 callees (4 shapes, 2 sharing a __name__, 1 wrapped by @util.deprecated) x all 16 subsets of 4 keyword names x {truthy, falsy} values, called in sequence in one process',
+    out.append(dict(name='util.filter_kwargs / has_kwargs conform to the contract E4 assumes', bound='7 callees (4 shapes, 2 sharing a __name__, 1 wrapped by @util.deprecated) x all 16 subsets of 4 keyword names x {truthy, four rotations of False / 0 / None / 0.0} values, called in sequence in one process',
                     cases=n, exhaustive=True, failures=failures[:5], wall_s=round(time.time() - t0, 2)))
     if failures:
         results.append(dict(kind='engine', engine='bundles', name='util.filter_kwargs', status='ok', detail='', paths=0, inlined=[], used_contracts=[],
